@@ -236,7 +236,7 @@ def inner_range(source: str, start: int, end: int):
     while end and end > start and is_space(source[end - 1]):
         end -= 1
 
-    return (start, end) if start != end else None
+    return (start, end) if start < end else None
 
 def alloc_range(pool: list, start: int, end: int, delimiter: int):
     if pool:
